@@ -31,12 +31,15 @@ FAMILIES = ["daily", "billing", "hourly", "hourly_solar", "caltrack"]
 # variants of a family: same classes, settings/data chosen so that a side-effect path of fit/predict is taken
 #   *_poorfit        thresholds placed so that fit() adds its own poor-fit disqualification
 #   hourly_ghi_ignored   model told to ignore GHI, data carries a GHI column (fit and every predict emit a mismatch warning)
-VARIANTS = ["daily_poorfit", "billing_poorfit", "hourly_poorfit", "hourly_ghi_ignored"]
+#   hourly_shared_settings   ONE settings object (explicit train_features + a supplemental column) serves every model built; the
+#                            explored model's meter lacks the supplemental column, the other meter (fit_other) has it
+VARIANTS = ["daily_poorfit", "billing_poorfit", "hourly_poorfit", "hourly_ghi_ignored", "hourly_shared_settings"]
+_SHARED = {}
 
 
 def base_family(family):
     return {"daily_poorfit": "daily", "billing_poorfit": "billing", "hourly_poorfit": "hourly",
-            "hourly_ghi_ignored": "hourly_solar"}.get(family, family)
+            "hourly_ghi_ignored": "hourly_solar", "hourly_shared_settings": "hourly"}.get(family, family)
 ZONE = "America/Chicago"
 
 
@@ -76,6 +79,12 @@ def new_model(family):
         return em.HourlyModel(settings={"seed": 7, "cvrmse_threshold": 1e-6, "pnrmse_threshold": 1e-6})
     if family == "hourly_ghi_ignored":
         return em.HourlyModel(settings={"seed": 7, "train_features": ["temperature"]})
+    if family == "hourly_shared_settings":
+        if "obj" not in _SHARED:
+            from opendsm.eemeter.models.hourly import settings as hs
+
+            _SHARED["obj"] = hs.HourlyNonSolarSettings(seed=7, train_features=["temperature"], supplemental_time_series_columns=["occupancy"])
+        return em.HourlyModel(settings=_SHARED["obj"])
     if family == "daily":
         return em.DailyModel()
     if family == "billing":
@@ -199,6 +208,8 @@ def run_graph(case):
     alphabet.append(("predict:baseline_object:usage", "predict:baseline_object:usage"))
     alphabet.append(("fit_other_meter", "fit_other"))
     other_frame = baseline_frame(family, 365, seed=5)
+    if family == "hourly_shared_settings":
+        other_frame["occupancy"] = ((other_frame.index.hour >= 8) & (other_frame.index.hour < 18)).astype(float) * (1 + other_frame.index.dayofweek % 3)
 
     def canon(m):
         try:
